@@ -597,6 +597,23 @@ func (x *Exec) stub(fn *ssa.Function, args []Val, site string) (Val, bool) {
 			return TupleV{OpaqueV{Kind: "float", Key: "0"}, x.opaqueErr()}, true
 		}
 		return TupleV{OpaqueV{Kind: "float", Key: "f:" + strconv.FormatFloat(fv, 'g', -1, 64), F: &fv}, IfaceV{}}, true
+	case "strconv.FormatFloat":
+		if o, ok := args[0].(OpaqueV); ok && o.F != nil {
+			fmtb, ok1 := concI(args[1])
+			prec, ok2 := concI(args[2])
+			bits, ok3 := concI(args[3])
+			if ok1 && ok2 && ok3 {
+				return cstr(strconv.FormatFloat(*o.F, byte(fmtb), prec, bits)), true
+			}
+		}
+		return StrV{Opaque: true}, true
+	case "strconv.FormatInt":
+		if b, ok := args[0].(BV); ok && b.Con {
+			if base, ok := concI(args[1]); ok {
+				return cstr(strconv.FormatInt(sext(b), base)), true
+			}
+		}
+		return StrV{Opaque: true}, true
 	case "strconv.FormatBool":
 		b := args[0].(BoolV)
 		if x.branch(b) {
